@@ -214,6 +214,9 @@ def _validate_union(datum, schema, named_schemas, parent_ns, raise_errors, optio
         except ValidationError as e:
             errors.extend(e.errors)
     if raise_errors:
+        if not errors:
+            # no branch was tried (empty union, or none named by the hint)
+            errors.append(ValidationErrorData(datum, schema, parent_ns))
         raise ValidationError(*errors)
     return False
 
